@@ -970,15 +970,24 @@ def _interp_common(s1, s2, sampling, method, fill_value):
     s2_index = _intersect(s2.wave, commonwave)
     s2_wave = commonwave[s2_index]
 
+    if np.ndim(fill_value) > 0:
+        fill_value = tuple(fill_value)
+
     # sample each Spectrum at the requested sampling
     s1_samplevalue = s1.sample(s1_wave, method=method, fill_value=fill_value,
                                waveunit=s1.waveunit)
     s2_samplevalue = s2.sample(s2_wave, method=method, fill_value=fill_value,
                                waveunit=s1.waveunit)
 
-    # create nominal value arrays
-    s1_value = fill_value * np.ones(commonwave.shape)
-    s2_value = fill_value * np.ones(commonwave.shape)
+    # create nominal value arrays (a two-element fill value gives the value
+    # below and above an operand's range)
+    if np.ndim(fill_value) > 0:
+        below, above = fill_value
+        s1_value = np.where(commonwave < s1.wave.min(), below, above).astype(float)
+        s2_value = np.where(commonwave < s2.wave.min(), below, above).astype(float)
+    else:
+        s1_value = fill_value * np.ones(commonwave.shape)
+        s2_value = fill_value * np.ones(commonwave.shape)
 
     # insert the sampled values into the appropriate slots
     s1_value[s1_index] = s1_samplevalue
